@@ -33,6 +33,8 @@ type c22In struct {
 	Body   string `json:"body"`  // none | garbage | req:<name> | exch:<name> | exch_bad | json | jws
 	Sess   string `json:"sess"`  // none | garbage | anon | alice
 	Html   bool   `json:"html,omitempty"`
+	Clen   string `json:"clen,omitempty"`      // declared Content-Length: "" = actual | atcap (= max_request_bytes) | over (cap+1) | huge (1<<40)
+	CapFst bool   `json:"cap_first,omitempty"` // SetMaxRequestBytes also called BEFORE the other setters (order must not matter)
 	Note   string `json:"note,omitempty"` // generator's label of the case (tag only)
 }
 
@@ -320,15 +322,53 @@ func c22Gen(r *rand.Rand, n int, tier string) []c22In {
 	noPfx := c22AllOn &^ 1
 	noPk := c22AllOn &^ (1 << 5) // PKCE wraps the callback in ChainAuthenticate, which drops a context returned with an error
 	errs := c22Rejecting[:len(c22Rejecting)-1]
-	// 0. rejection SHAPES, boundary cases first: every error class returned together
-	//    with a NON-NIL context (identified but refused) on every gated route,
-	//    with and without prefix; (nil, err) for the same routes is stage 2
 	ctxFor := func(q c22In) string {
 		if strings.Contains(q.Path, vgirpc.IntrospectEndpoint) {
 			return "introspector"
 		}
 		return "alice"
 	}
+	// 00. the request-cap fast path (413), which runs before the mux and the
+	//     authenticator: over-cap declared Content-Length on every gated route and
+	//     on the open ones, cap with / without upload provider, prefix on / off,
+	//     boundary sizes (exactly the cap, cap+1, 2^40), cap set first / last
+	capBit, upBit := uint32(1)<<11, uint32(1)<<7
+	for ci, cfg := range []uint32{noPk, noPk &^ 1, noPk &^ upBit, noPk &^ capBit, c22AllOn} {
+		ns := c22Nominal(c22Pfx(cfg))
+		for k, q := range ns[:12] {
+			q.Note, q.Clen, q.CapFst = "over-cap", "over", (k+ci)%2 == 0
+			addc(cfg, "fail", ctxFor(q), q)
+		}
+		if ci < 2 {
+			for _, a := range []string{"unavail", "nilnil", "error", "ok"} {
+				for _, k := range []int{0, 3, 6, 9, 10} {
+					q := ns[k]
+					q.Note, q.Clen = "over-cap", []string{"over", "huge"}[k%2]
+					addc(cfg, a, "nil", q)
+				}
+			}
+			for _, k := range []int{12, 13, 15, 16, 18, 23, 24, 26} { // health x2 (exempt), metadata, landing, not-found, session delete, custom, preflight
+				q := ns[k]
+				q.Note, q.Clen = "over-cap", "over"
+				addc(cfg, "fail", "nil", q)
+			}
+			for _, pth := range []string{"/health/x", c22Pfx(cfg) + "/health/", "/healthz", c22Pfx(cfg) + "//u_int", "/vgi/health", "/%68ealth", c22Pfx(cfg) + "/u_int/"} {
+				q := ns[0]
+				q.Path, q.Note, q.Clen = pth, "over-cap", "over"
+				addc(cfg, "fail", "alice", q)
+			}
+			for _, cl := range []string{"atcap", "huge"} {
+				for _, k := range []int{0, 9} {
+					q := ns[k]
+					q.Note, q.Clen = "over-cap", cl
+					addc(cfg, "fail", "alice", q)
+				}
+			}
+		}
+	}
+	// 0. rejection SHAPES, boundary cases first: every error class returned together
+	//    with a NON-NIL context (identified but refused) on every gated route,
+	//    with and without prefix; (nil, err) for the same routes is stage 2
 	for _, e := range errs {
 		for _, q := range c22Nominal(c22Pfx(noPk))[:12] {
 			q.Note = "ctx-with-error"
@@ -426,6 +466,13 @@ func c22Gen(r *rand.Rand, n int, tier string) []c22In {
 				q = c22Confuse(r, q, cfg)
 			}
 		}
+		switch r.Intn(10) {
+		case 0, 1:
+			q.Clen = "over"
+		case 2:
+			q.Clen = []string{"atcap", "huge"}[r.Intn(2)]
+		}
+		q.CapFst = r.Intn(2) == 0
 		addc(cfg, a, ctx, q)
 	}
 	return out
@@ -440,7 +487,7 @@ var c22CtHdr = map[string]string{"arrow": "application/vnd.apache.arrow.stream",
 	"form": "application/x-www-form-urlencoded", "none": ""}
 var c22SessCoq = map[string]string{"none": "C22.S_none", "garbage": "C22.S_garbage", "anon": "C22.S_anon", "alice": "C22.S_alice"}
 var c22WorkCoq = []string{"C22.W_body", "C22.W_hook", "C22.W_handler", "C22.W_init", "C22.W_state", "C22.W_rehydrate",
-	"C22.W_resolver", "C22.W_provider", "C22.W_describe", "C22.W_session_close", "C22.W_custom"}
+	"C22.W_resolver", "C22.W_provider", "C22.W_describe", "C22.W_session_close", "C22.W_custom", "C22.W_vend"}
 
 func c22BodyCoq(b string) string {
 	switch {
@@ -499,6 +546,9 @@ func c22Run(in c22In) CaseOut {
 	custom := func(w http.ResponseWriter, _ *http.Request) {
 		atomic.AddInt64(&cnt.custom, 1)
 		w.WriteHeader(http.StatusOK)
+	}
+	if in.CapFst && t.MaxReq {
+		h.SetMaxRequestBytes(vgirpc.VerifC22MaxReq)
 	}
 	if _, err := vgirpc.VerifC22Apply(h, t, auth, resolver, c22Provider{cnt}, custom); err != nil {
 		panic(err)
@@ -577,6 +627,15 @@ func c22Run(in c22In) CaseOut {
 	cb := &c22Body{r: strings.NewReader(string(body))}
 	req.Body = cb
 	req.ContentLength = int64(len(body))
+	switch in.Clen {
+	case "atcap":
+		req.ContentLength = vgirpc.VerifC22MaxReq
+	case "over":
+		req.ContentLength = vgirpc.VerifC22MaxReq + 1
+	case "huge":
+		req.ContentLength = 1 << 40
+	}
+	big := in.Clen == "over" || in.Clen == "huge"
 	if ct := c22CtHdr[in.CType]; ct != "" {
 		req.Header.Set("Content-Type", ct)
 	}
@@ -627,6 +686,7 @@ func c22Run(in c22In) CaseOut {
 	}
 	got[9] = cnt.closed > 0
 	got[10] = cnt.custom > 0
+	got[11] = vgirpc.VerifC22Vended(rec.Header(), rec.Body.Bytes()) // a pre-signed URL anywhere on the response
 	var work, workNames []string
 	for i, g := range got {
 		if g {
@@ -637,7 +697,7 @@ func c22Run(in c22In) CaseOut {
 	consulted := cnt.auth > 0
 
 	coqIn := App("C22.Probe", App("C22.cfgm", N(uint64(in.Cfg))), "C22.A_"+in.Auth, c22CtxCoq[in.Ctx],
-		App("C22.Build_request", c22MethCoq[in.Method], B(in.Path), c22CtCoq[in.CType], c22BodyCoq(in.Body), c22SessCoq[in.Sess], Bool(in.Html)))
+		App("C22.Build_request", c22MethCoq[in.Method], B(in.Path), c22CtCoq[in.CType], c22BodyCoq(in.Body), c22SessCoq[in.Sess], Bool(in.Html), Bool(big)))
 	bk := vgirpc.VerifC22BodyKind(rec.Body.Bytes())
 	bkCoq := map[string]string{"empty": "C22.BK_empty", "rej401": "C22.BK_rej401", "rej503": "C22.BK_rej503",
 		"rej500": "C22.BK_rej500", "wall401": "C22.BK_other", "other": "C22.BK_other"}[bk]
@@ -646,7 +706,11 @@ func c22Run(in c22In) CaseOut {
 	if in.Ctx == "" {
 		in.Ctx = "nil"
 	}
-	tags := []string{"auth-" + in.Auth, "ctx-" + in.Ctx, "body-" + bk, "status-" + itoa(status), "mux-" + kind, "method-" + in.Method}
+	clen := in.Clen
+	if clen == "" {
+		clen = "actual"
+	}
+	tags := []string{"auth-" + in.Auth, "ctx-" + in.Ctx, "body-" + bk, "clen-" + clen, "status-" + itoa(status), "mux-" + kind, "method-" + in.Method}
 	if in.Note != "" {
 		tags = append(tags, "confusion-"+in.Note)
 	} else {
@@ -675,6 +739,6 @@ func c22Run(in c22In) CaseOut {
 }
 
 func init() {
-	Register("C22", "real HttpServer at generated points of the 11-toggle feature lattice (prefix, 3 pages, sticky, PKCE, custom routes, upload provider, introspection, OAuth metadata, CORS) x authenticator scripts (error component x context component returned WITH the error: nil / alice / introspector; 12 behaviours, 9 rejecting: AuthFailure, wrapped AuthFailure, ValueError, wrapped ValueError, PermissionError, AuthUnavailable, wrapped, plain error, (nil,nil); 3 accepting as positive control) x one probe: every route kind nominal, RPC requests through the wrong route, and method/path confusions (method swap, trailing/double slash, dot segments, case, %2F, %XX, prefix, content type, body, extra segment); counters on every handler / stream state / rehydrate / resolver / provider / hook / session close / custom handler / body read; non-trivial = rejected non-preflight request, or accepted request that moved a counter; distinct = distinct input JSON",
+	Register("C22", "real HttpServer at generated points of the 11-toggle feature lattice (prefix, 3 pages, sticky, PKCE, custom routes, upload provider, introspection, OAuth metadata, CORS) x authenticator scripts (error component x context component returned WITH the error: nil / alice / introspector; 12 behaviours, 9 rejecting: AuthFailure, wrapped AuthFailure, ValueError, wrapped ValueError, PermissionError, AuthUnavailable, wrapped, plain error, (nil,nil); 3 accepting as positive control) x one probe: every route kind nominal, RPC requests through the wrong route, and method/path confusions (method swap, trailing/double slash, dot segments, case, %2F, %XX, prefix, content type, body, extra segment) x declared Content-Length (actual / exactly max_request_bytes / cap+1 / 2^40, cap setter first or last); counters on every handler / stream state / rehydrate / resolver / provider / hook / session close / custom handler / body read; non-trivial = rejected non-preflight request, or accepted request that moved a counter; distinct = distinct input JSON",
 		c22Gen, c22Run)
 }
